@@ -36,7 +36,7 @@ fn full_acts() -> Vec<Act> {
         vec!["INCR", "a"], vec!["DECR", "a"], vec!["INCRBY", "a", "5"], vec!["INCRBY", "a", "-1"], vec!["INCRBY", "a", I64MAX], vec!["INCRBY", "a", I64MIN],
         vec!["DECRBY", "a", "5"], vec!["DECRBY", "a", I64MIN], vec!["DECRBY", "a", I64MAX], vec!["INCRBY", "a", "abc"], vec!["INCRBY", "a", "007"],
         vec!["INCRBY", "a", "0"], vec!["DECRBY", "nokey", "0"], vec!["INCRBY", "a", "+5"], vec!["INCRBY", "a", " 1"], vec!["INCRBY", "a", "1.0"], vec!["INCRBY", "a", ""],
-        vec!["DEL", "a"], vec!["DEL", "a", "q"], vec!["DEL", "a", "a"], vec!["DEL", "nokey"],
+        vec!["DEL", "a"], vec!["DEL", "a", "q"], vec!["DEL", "a", "a"], vec!["DEL", "nokey"], vec!["DEL", "nokey", "a", "q"],
         vec!["RENAME", "a", "q"], vec!["RENAME", "a", "a"], vec!["RENAME", "nokey", "q"], vec!["RENAME", "q", "a"], vec!["RENAME", "a", "c"],
         vec!["RENAMENX", "a", "q"], vec!["RENAMENX", "a", "a"], vec!["RENAMENX", "nokey", "q"],
         vec!["FLUSHDB"], vec!["FLUSHALL"],
@@ -82,6 +82,8 @@ fn probes(m: &Model) -> Vec<Vec<Bytes>> {
     p.push(s(&["MGET"]));
     p.push(s(&["EXISTS", "a"]));
     p.push(s(&["EXISTS", "a", "q"]));
+    p.push(s(&["EXISTS", "nokey", "a", "q"]));
+    p.push(s(&["MGET", "nokey", "a", "q"]));
     p.push(s(&["EXISTS", "a", "a", "nokey"]));
     p.push(s(&["DBSIZE"]));
     p.push(s(&["RANDOMKEY"]));
